@@ -181,7 +181,9 @@ def cli_cases(ctx, rng, key_text, key, key_id):
                                                 (3000, None, None, 9000), (3000, None, None, 10), (4096, None, None, 4096), (0, None, None, 77)]):
             payload = payload_of(n, 1000 + i)
             iv = bytes(rng.randrange(256) for _ in range(12))
-            attrs = E.std_attrs(key, iv, key_id, extra=rng.sample(EXTRA_POOL, 2))
+            # vmware.keyInfo is a free-form string attribute: the tool decrypts with the keystore's key whatever its spelling
+            kinfo = [key_id, key_id.upper(), "{" + key_id + "}", key_id.replace("-", ""), "urn:uuid:" + key_id, "some label ✓"][i % 6]
+            attrs = E.std_attrs(key, iv, kinfo, extra=rng.sample(EXTRA_POOL, 2))
             blob, info = E.seal(payload, key, iv, attrs, aad=aad)
             if bad:
                 blob = tamper(blob, info, bad, rng, attrs)
@@ -238,7 +240,7 @@ def keystore_cases(ctx, rng):
     import itertools
     orders = list(itertools.permutations(range(4)))
     for a, b, style in seq:
-        for esc_case in ("esxi", "lower", "upper", "mixed"):
+        for esc_case in ("esxi", "lower", "upper", "mixed", "none"):
             ctx.case(key=("ks", a, b, style, esc_case), nontrivial=True)
             try:
                 # the name=value pairs of ConfigEncData in any order (they are looked up by name)
